@@ -217,7 +217,7 @@ def cmd_check(pid, tier, seed):
             for i, v in enumerate(h.get("violations") or []):
                 rp = os.path.join(rdir, "%s-%d.json" % (entry, i))
                 json.dump({"property": pid, "entry": entry, "manifest": os.path.relpath(mpath, ROOT), "kind": v["kind"], "label": v["label"], "where": v["where"],
-                           "values": v["values"], "sched": v.get("sched") or [], "observe": v.get("observe") or [], "prefix": v.get("prefix") or []}, open(rp, "w"), indent=1)
+                           "values": v.get("values") or [], "sched": v.get("sched") or [], "observe": v.get("observe") or [], "prefix": v.get("prefix") or []}, open(rp, "w"), indent=1)
                 st, out = native_replay(gosmt, mpath, m, entry, rp)
                 reproduced = False
                 if v["kind"] == "assert" and st.startswith("assert:") and v["label"] in st[7:].split("|"):
@@ -247,7 +247,7 @@ def cmd_check(pid, tier, seed):
                 v = h["reach_model"]
                 rp = os.path.join(rdir, "%s-reach.json" % entry)
                 json.dump({"property": pid, "entry": entry, "manifest": os.path.relpath(mpath, ROOT), "kind": v["kind"], "label": v["label"], "where": v["where"],
-                           "values": v["values"], "sched": v.get("sched") or [], "observe": v.get("observe") or []}, open(rp, "w"), indent=1)
+                           "values": v.get("values") or [], "sched": v.get("sched") or [], "observe": v.get("observe") or []}, open(rp, "w"), indent=1)
                 st, out = native_replay(gosmt, mpath, m, entry, rp)
                 ok = (v["kind"] == "assert" and st.startswith("assert:") and v["label"] in st[7:].split("|")) or (v["kind"] != "assert" and st == "panic")
                 nat_obs = observes_of(out)
@@ -291,9 +291,9 @@ def cmd_check(pid, tier, seed):
         for s in (h.get("samples") or [])[:2]:
             samples.append({"harness": h["entry"], "path_condition": s, "verdict": h["verdict"]})
     for k, entry, v, rp in known_hits[:3]:
-        samples.append({"harness": entry, "counterexample": v["values"][:12], "label": v["label"], "status": "known finding, replayed natively"})
+        samples.append({"harness": entry, "counterexample": (v.get("values") or [])[:12], "label": v["label"], "status": "known finding, replayed natively"})
     for entry, v, rp in violations[:3]:
-        samples.append({"harness": entry, "counterexample": v["values"][:12], "label": v["label"], "status": "violation, replayed natively"})
+        samples.append({"harness": entry, "counterexample": (v.get("values") or [])[:12], "label": v["label"], "status": "violation, replayed natively"})
     if not samples:
         samples.append({"note": "no path sample recorded"})
     lindb_funcs = sorted(k for k in funcs if "lindb" in k and "verif" not in k.split(".")[-1][:5])
